@@ -351,7 +351,13 @@ class GreedySpan:
             o_inputs = [inputs[i] for i in o_nodes]
             o_ssa_path = ssa_greedy_optimize(o_inputs, output, size_dict)
             seq = []
-            for pi, pj in o_ssa_path:
+            for p in o_ssa_path:
+                if len(p) == 1:
+                    # single term simplification: takes up an ssa id but
+                    # still refers to the same node
+                    o_nodes.append(o_nodes[p[0]])
+                    continue
+                pi, pj = p
                 merges[o_nodes[pi]] = o_nodes[pj]
                 seq.append((o_nodes[pi], o_nodes[pj]))
                 o_nodes.append(o_nodes[pj])
